@@ -60,7 +60,11 @@
 //   - calls listed under "ignore" (mutex operations, logging, metrics) are
 //     dropped; methods listed under "identity" return their receiver;
 //   - "recv_nonnil" models a pointer receiver as the struct itself (the
-//     assumption that callers never pass nil is stated where it is used).
+//     assumption that callers never pass nil is stated where it is used);
+//   - a keyed composite literal `T{f: v, …}` of a translated struct type is a
+//     Lean structure instance (field values evaluated in source order, omitted
+//     fields zero, fields of abstract type left out as in the structure
+//     itself); `&T{…}` is `some` of it.
 //
 // Anything else is a translation error: the generated definition is replaced
 // by a marker that makes the Tie theorem fail, i.e. a broken obligation.
@@ -630,6 +634,10 @@ func (c *fctx) expr(e ast.Expr) ex {
 			return c.bindN([]ex{a}, func(s []string) string { return "(-" + s[0] + ")" })
 		case token.ADD:
 			return a
+		case token.AND:
+			if _, isLit := x.X.(*ast.CompositeLit); isLit {
+				return c.bindN([]ex{a}, func(s []string) string { return "(some " + s[0] + ")" })
+			}
 		}
 		fail("unary %s", x.Op)
 	case *ast.BinaryExpr:
@@ -646,6 +654,11 @@ func (c *fctx) expr(e ast.Expr) ex {
 			}
 			return c.bindN(xs, func(s []string) string { return "[" + strings.Join(s, ", ") + "]" })
 		}
+		if n, ok := types.Unalias(c.typeOf(x)).(*types.Named); ok {
+			if st, ok := n.Underlying().(*types.Struct); ok && c.t.structType(n, st) != "" {
+				return c.structLit(x, st, c.t.structType(n, st))
+			}
+		}
 	}
 	if ix, ok := e.(*ast.IndexExpr); ok {
 		if _, isSl := c.typeOf(ix.X).Underlying().(*types.Slice); isSl && c.t.leanType(c.typeOf(ix.X)) != "" && isInt(c.typeOf(ix.Index)) {
@@ -661,6 +674,43 @@ func (c *fctx) expr(e ast.Expr) ex {
 	}
 	fail("expression %s (%T)", c.show(e), e)
 	return ex{}
+}
+
+// structLit translates a keyed composite literal of a translated struct type.
+func (c *fctx) structLit(x *ast.CompositeLit, st *types.Struct, name string) ex {
+	given := map[string]bool{}
+	var names []string
+	var xs []ex
+	for _, el := range x.Elts {
+		kv, ok := el.(*ast.KeyValueExpr)
+		if !ok {
+			fail("positional struct literal %s", c.show(x))
+		}
+		k := kv.Key.(*ast.Ident).Name
+		given[k] = true
+		for i := 0; i < st.NumFields(); i++ {
+			if f := st.Field(i); f.Name() == k && c.t.leanType(f.Type()) != "" {
+				names = append(names, leanIdent(k))
+				xs = append(xs, c.exprAs(kv.Value, f.Type()))
+			}
+		}
+	}
+	for i := 0; i < st.NumFields(); i++ {
+		if f := st.Field(i); !given[f.Name()] && c.t.leanType(f.Type()) != "" {
+			names = append(names, leanIdent(f.Name()))
+			xs = append(xs, ex{code: c.zero(f.Type())})
+		}
+	}
+	return c.bindN(xs, func(s []string) string {
+		if len(s) == 0 {
+			return name + ".mk"
+		}
+		fs := make([]string, len(s))
+		for i := range s {
+			fs[i] = names[i] + " := " + s[i]
+		}
+		return "({ " + strings.Join(fs, ", ") + " } : " + name + ")"
+	})
 }
 
 // opaqueValue turns an expression the subset cannot express (an element of a
